@@ -1,21 +1,76 @@
 """C03 — devices see exactly the latest upstream values along the declared wiring."""
 from . import simprop
 
-MODULES = ['TickitModel.Props.C03', 'TickitModel.Props.C03Nested', 'TickitModel.Props.FlatInt', 'TickitModel.Props.C03NestedInt']
-THEOREMS = ['synced_init', 'synced_tick', 'inputs_latest', 'synced_run', 'flat_sim_is_flatRun', 'nested_refines_flatRun', 'nested_inputs_synced', 'synced_runI', 'inputs_latest_tickI', 'inputs_latest_runI', 'flatRun_is_flatRunI', 'flat_sim_is_flatRunI', 'nested_refines_flatRunI', 'nested_inputs_synced_int']
+MODULES = ['TickitModel.Props.C03', 'TickitModel.Props.C03Nested', 'TickitModel.Props.FlatInt', 'TickitModel.Props.C03NestedInt', 'TickitModel.Props.C08NestedAnyRun']
+THEOREMS = ['synced_init', 'synced_tick', 'inputs_latest', 'synced_run', 'flat_sim_is_flatRun', 'nested_refines_flatRun', 'nested_inputs_synced', 'synced_runI', 'inputs_latest_tickI', 'inputs_latest_runI', 'flatRun_is_flatRunI', 'flat_sim_is_flatRunI', 'nested_refines_flatRunI', 'nested_inputs_synced_int', 'any_order_run_refines_flatRun', 'any_order_run_inputs_synced']
 ANCHORS = ["src/tickit/core/management/event_router.py", "src/tickit/core/management/ticker.py",
            "src/tickit/core/components/device_component.py", "src/tickit/core/management/schedulers/nested.py",
            "src/tickit/core/components/system_component.py"]
 TECHNIQUE = "Lean 4 theorems (invariant 'component inputs = latest reported upstream values' over all multi-tick histories and answer orders of flat simulations) + whole-simulation trace validation incl. nested boundaries against the model"
-LEVEL_TEXT = "Theorems over the flat multi-tick model (any wiring with one source per port, any devices, any number of ticks, any answer order in each tick): the invariant that every wired input holds the latest value ever reported on its source is preserved by every tick, and every observation made in a tick has exactly the wired ports, each with the latest reported value including values produced earlier in the same tick. THROUGH SYSTEM BOUNDARIES: the nested whole-simulation model (any depth) is proved to refine that flat system over the resolved device-level wiring (C09 transparency + 'a flat whole-simulation run is a FlatRun'), so every observation of every device at any depth is explained by a Synced flat run: external and exposed ports deliver exactly the latest values of the resolved sources, in both directions, within the same tick. WITH INTERRUPTS (Props/FlatInt: the flat system extended by external stimuli between ticks, any script of ticks and interrupts): the invariant holds after every such history and every observation was made with the latest reported values (synced_runI, inputs_latest_runI). And through system boundaries WITH interrupts (Props/C03NestedInt): a run of the whole-simulation model with stimuli on a flat configuration is a FlatRunI whose script has exactly the handled stimuli at their positions with the model's stamps, and a nested run with timely stimuli on interrupt-safe devices has, device by device, the observations of a Synced FlatRunI over the resolved wiring (nested_refines_flatRunI, nested_inputs_synced_int). (The nested model answers dispatches first-in first-out; untimely or mid-tick stimuli inside systems are validated.) Tie to the code: per-device observation sequences of generated flat and nested simulations (depth <= 3, shared port names, several wires from one source, pass-through ports) under two buses must equal those of the Lean model, and a direct monitor checks inputs == latest upstream values through the resolved wiring."
+LEVEL_TEXT = "Theorems over the flat multi-tick model (any wiring with one source per port, any devices, any number of ticks, any answer order in each tick): the invariant that every wired input holds the latest value ever reported on its source is preserved by every tick, and every observation made in a tick has exactly the wired ports, each with the latest reported value including values produced earlier in the same tick. THROUGH SYSTEM BOUNDARIES: the nested whole-simulation model (any depth) is proved to refine that flat system over the resolved device-level wiring (C09 transparency + 'a flat whole-simulation run is a FlatRun'), so every observation of every device at any depth is explained by a Synced flat run: external and exposed ports deliver exactly the latest values of the resolved sources, in both directions, within the same tick. WITH INTERRUPTS (Props/FlatInt: the flat system extended by external stimuli between ticks, any script of ticks and interrupts): the invariant holds after every such history and every observation was made with the latest reported values (synced_runI, inputs_latest_runI). And through system boundaries WITH interrupts (Props/C03NestedInt): a run of the whole-simulation model with stimuli on a flat configuration is a FlatRunI whose script has exactly the handled stimuli at their positions with the model's stamps, and a nested run with timely stimuli on interrupt-safe devices has, device by device, the observations of a Synced FlatRunI over the resolved wiring (nested_refines_flatRunI, nested_inputs_synced_int). (For callback histories the restriction to first-in first-out answers inside nested schedulers is removed: every run in which every level answers its pending dispatches in ANY order has, device by device, the observations of a Synced FlatRun over the resolved wiring - any_order_run_refines_flatRun. Untimely or mid-tick stimuli inside systems are validated.) Tie to the code: per-device observation sequences of generated flat and nested simulations (depth <= 3, shared port names, several wires from one source, pass-through ports) under two buses must equal those of the Lean model, and a direct monitor checks inputs == latest upstream values through the resolved wiring."
 LEVEL_NOTE = 'Trusts: Lean kernel; hand-written models (tied by whole-simulation trace validation on every run).'
 ASSUMPTIONS = ["each input port has one source", "acyclic wiring", "valid configuration names (unique, not 'external'/'expose')"]
 MON = ("inputs_latest", "device_order")
 CORR = ('inputs',)
 
 
+def iobox_scenarios():
+    """tickit's own IoBox devices wired into each other (values are LISTS that travel by reference): one upstream box feeds
+    two others; adapters write to each of them at different times; then each is updated again"""
+    MS = 1_000_000
+    box = lambda n, ins=None: {"name": n, "kind": "dev", "inputs": ins or {}, "beh": {"iobox": True, "outs": [], "cb": {"kind": "none"}}}   # noqa: E731
+    out = []
+    for order in (("a", "b", "c"), ("a", "c", "b"), ("b", "a", "c")):
+        stims, t = [], 0
+        for rnd in range(2):
+            for k, who in enumerate(order):
+                t += MS
+                stims.append({"real": t + 111, "comp": who, "write": [10 * rnd + k, 100 * rnd + k]})
+            for who in ("c", "b", "a"):
+                t += MS
+                stims.append({"real": t + 111, "comp": who})
+        out.append({"components": [box("a"), box("b", {"updates": ["a", "updates"]}), box("c", {"updates": ["a", "updates"]}),
+                                   {"name": "s", "kind": "sys", "inputs": {"u": ["a", "updates"]}, "expose": {}, "components": [box("d", {"updates": ["external", "u"]})]}],
+                    "t0": 0, "speed": [1, 1], "n_ticks": 1 + len(stims), "stims": stims})
+    return out
+
+
+def many_diamonds(k=12):
+    """k independent diamonds src_i -> l_i, r_i -> join_i whose branches become due alone, at distinct times, after the
+    all-roots initial tick.  Which branch a reachability crawl meets first depends on the iteration order of SETS of
+    component names (the interpreter's per-process string hashing), so one diamond shows a given order only with some
+    probability; k of them with different names make the shape practically certain to occur."""
+    MS = 1_000_000
+    d = lambda n, ins=None, cb=None, mod=5: {"name": n, "kind": "dev", "inputs": ins or {},   # noqa: E731
+                                             "beh": {"outs": [{"port": "o", "kind": "counter", "v": 0, "mod": mod, "step": 1}], "cb": cb or {"kind": "none"}}}
+    comps = []
+    for i in range(k):
+        tag = ["", "q", "Zz", "x_", "m"][i % 5] + str(i)
+        comps += [d(f"{tag}src"),
+                  d(f"{tag}l", {"i": [f"{tag}src", "o"]}, {"kind": "list", "delays": [(2 * i + 1) * MS, None]}, 3),
+                  d(f"{tag}r", {"i": [f"{tag}src", "o"]}, {"kind": "list", "delays": [(2 * i + 2) * MS, None]}, 4),
+                  {"name": f"{tag}join", "kind": "dev", "inputs": {"a": [f"{tag}l", "o"], "b": [f"{tag}r", "o"]},
+                   "beh": {"outs": [{"port": "o", "kind": "sum", "v": 0, "mod": 7}], "cb": {"kind": "none"}}}]
+    return {"components": comps, "t0": 0, "speed": [1, 1], "n_ticks": 2 * k + 1}
+
+
 def run(tier, seed, drv):
-    return simprop.generic_run(tier, seed, drv, monitors_on=MON, corr=CORR)
+    from sim import run_scenario
+    from . import simcommon as SC
+    res = simprop.generic_run(tier, seed, drv, monitors_on=MON, corr=CORR)
+    scn = many_diamonds(12 if tier == "quick" else 24)
+    for b in ("sync", "held"):
+        run_ = run_scenario(scn, bus=b, seed=seed)
+        res.case("many-diamonds" + b, nontrivial=True)
+        res.count("many-diamonds")
+        SC.check_run(scn, run_, drv, res, monitors_on=MON, corr=CORR, case_extra={"bus": b, "held_seed": seed})
+    for scn in iobox_scenarios():
+        for b in ("sync", "held"):
+            run_ = run_scenario(scn, bus=b, seed=seed)
+            res.case(SC.scn_key(scn) + b, nontrivial=True)
+            res.count("iobox-chain")
+            SC.check_run(scn, run_, drv, res, monitors_on=MON, corr=(), case_extra={"bus": b, "held_seed": seed})   # list values are outside the value domain of the model driver: monitors only
+    return res
 
 
 def replay(payload, drv):
